@@ -274,17 +274,21 @@ ADDENDA = {
     "C01": " The range premise of the bit-decomposition hint (0 <= E < 2^N) is decided by interval reasoning over the "
            "dominating tests; a range that is not implied is a violation.  A constraint written on the guard wire itself "
            "(guard*y = 0) is judged by guard scenario (no guard / guard 1 with the honest premise, guard 0 on every path); small "
-           "helpers computing a hint are evaluated in place, a swallowed exception splitting the case.",
+           "helpers computing a hint are evaluated in place, a swallowed exception splitting the case; a hint that is the result of a "
+           "bit-returning helper is split into its two values; a private helper whose callers all pass a masked value is shown for "
+           "each value of that parameter.",
     "C02": " Also: constraint emission is memoryless (no cached state on wire objects / module tables decides emission); every "
            "value if_then_else returns for a secret condition is select(c,t,f) (polynomial or truth table); every fresh factor "
            "of a field product relation is range-bounded (the unbounded divmod quotient is a recorded known finding with a "
            "forged-witness demonstration); under a guard every constraint is enforced on its own (guard*dummy = 0 per constraint, "
            "shared with C07); assert_zero / assert_nonzero say self = 0 / self*w = 1 on every completing path for a guard of "
            "value 1; the non-zero test is the complement of the zero test or the pair x*w = r, x*(1-r) = 0; two cheaper one-hot selector designs are accepted through their lemmas (sa/selnorm.py), every hypothesis "
-           "checked.",
+           "checked (three selector designs, the offset-binary sign test, digit loops - sa/selnorm.py, signnorm.py, loopnorm.py); the "
+           "remainder of divmod is confined, path by path, to |divisor| consecutive values.",
     "C03": " Also: a test that skips the range check on unpack is evaluated for every small modulus; declarations are enforced "
            "at every call (memoryless rule); the enforced relation is stated over wires - no trace-time value of an operand "
-           "is folded into a gadget operand.",
+           "is folded into a gadget operand; a range enforced by a decomposition of the method's own (neither a width gadget nor a "
+           "list of that many bits) is reported as undecided.",
     "C04": " Calls unknown to the value homomorphism are uninterpreted function symbols, so a closed-form value next to a "
            "differently built wire is a violation.  A construction that follows an accumulating loop is decided by induction "
            "over the loop (flag states, constant propagation per state, the claim as invariant).",
@@ -293,15 +297,18 @@ ADDENDA = {
            ".value/.lc of an object that may be one of its operands (flow-sensitive may-alias analysis); no result or "
            "decomposition is cached on an operand (memoryless rule); every return of the comparison operators is the comparison "
            "gadget's result (a constant answer for an out-of-range public operand is judged against the width of the value domain); "
-           "a zero divisor raises on every path where errors are not ignored.",
+           "a zero divisor raises on every path where errors are not ignored; a division that hands back the pair of another "
+           "division must do so for the same operands (a scaled problem scales the remainder).",
     "C06": " Also: state kept across calls and consulted by a decision is never written under value-derived control (.value, "
            "is_guard(), ignore_errors()).",
     "C07": " Also: emission is memoryless; a raise inside the guarded arm of add_constraint implies the unguarded arm's raise "
-           "condition.",
+           "condition; a leading shortcut for linear constraints under a guard must emit exactly guard*y = 0.",
     "C08": " Also: nothing computed from the guard outlives the region (memoryless rule); add_guard is the last fallible step "
            "of BranchContext.enter; the context-manager protocol is accepted as a release discipline (single-slot managers fresh "
            "per `with`, token stacks re-entrant); every completing path of add_guard hands out the saved state and every "
-           "completing path of restore_guard restores it; suppression under a false guard is stored or derived.",
+           "completing path of restore_guard restores it; suppression under a false guard is stored or derived; saved state kept on a "
+           "module-level stack is accepted when the entry holds what is re-installed (the region's conjoined guard if the top entry "
+           "is re-installed, the previous guard if the popped one is).",
     "C09": " Also: the guard kernel of runtime.py splits on 'a guard is installed', never on its value; constraints emitted in "
            "a branch not taken are satisfied (shared with C07); the merge multiplexer selects exactly (shared with C02).",
     "C10": " Also: the snarkjs linear-combination algebra (shared with C13, incl. exact cancellation) and no table keyed by "
@@ -332,7 +339,8 @@ ADDENDA = {
     "C18": " Also: under autoprove the exit callback runs backend.prove() exactly once and under no other condition; the recorded "
            "exit code / exception is written by the interposed hooks only (never reset); the decision table's rows carry what the "
            "exception hook records for the row's exception (including one raised without arguments) and methods / properties of "
-           "the overrider are evaluated on the row.",
+           "the overrider are evaluated on the row; uncaught exceptions may instead be read from the interpreter's own record "
+           "(sys.last_exc / sys.last_value), rows then bind that record.",
     "C19": " Stage rules are stated on the outcomes of a symbolic execution of the selection code over an abstract registry "
            "row (pairing of name and module on every outcome, no second assignment of backend, decision order, loud failure "
            "of a named backend, report of an unknown name before auto-detection); the environment is matched against a row only "
